@@ -84,7 +84,8 @@ def _mode(name):
 class World:  # pylint: disable=too-many-instance-attributes
     """The real container(s) next to the model."""
 
-    def __init__(self, root: str, case: dict, checkers=(), prop: str = 'C02', nhandles: int = 1):
+    def __init__(self, root: str, case: dict, checkers=(), prop: str = 'C02', nhandles: int = 1, attach=None):
+        """`attach=(model, aux_model)` opens the existing containers under `root` instead of creating them."""
         from disk_objectstore import Container  # pylint: disable=import-outside-toplevel
 
         self.Container = Container  # pylint: disable=invalid-name
@@ -101,7 +102,8 @@ class World:  # pylint: disable=too-many-instance-attributes
         self.hash_type = self.cfg['hash_type']
         self.handles = []
         first = Container(self.path)
-        first.init_container(clear=False, **config_kwargs(self.cfg))
+        if attach is None:
+            first.init_container(clear=False, **config_kwargs(self.cfg))
         self.handles.append(first)
         for _ in range(nhandles - 1):
             self.handles.append(Container(self.path))
@@ -110,6 +112,11 @@ class World:  # pylint: disable=too-many-instance-attributes
         self.deleted = []  # recently deleted keys (checked to be absent)
         self.aux = None
         self.aux_model = {}
+        if attach is not None:
+            self.model = dict(attach[0])
+            self.aux_model = dict(attach[1])
+            if os.path.isdir(self.aux_path):
+                self.aux = Container(self.aux_path)
         self.checkers = list(checkers)
         self.log = []
         self.stats = {}
@@ -241,6 +248,9 @@ class World:  # pylint: disable=too-many-instance-attributes
             'do_fsync': not flags & 16,
             'api': op['b'] % 4,
         }
+        if rop['api'] == 3:  # single-object API
+            rop['datas'] = rop['datas'][:1]
+            rop['keys'] = rop['keys'][:1]
         return rop
 
     def x_addpack(self, rop):
@@ -272,8 +282,6 @@ class World:  # pylint: disable=too-many-instance-attributes
             for path in paths:
                 os.remove(path)
         else:
-            rop['datas'] = datas = datas[:1]
-            rop['keys'] = rop['keys'][:1]
             keys = [
                 self.c.add_streamed_object_to_pack(
                     io.BytesIO(datas[0]), callback=callback, callback_size_hint=len(datas[0]), **kwargs
